@@ -57,7 +57,7 @@ ASSUMPTIONS = [
     "eval() calls in otBase/otConverters/otTables evaluate expressions from the static otData tables, not from input; they are outside the canary oracle unless a canary reaches them",
     "failed-save clause covers TTFont.save / TTCollection.save / ttx -o onto an existing path; TTFont.saveXML writes progressively by design and is reported, not asserted",
 ]
-WALL_BUDGET = {"quick": 900, "thorough": 3 * 3600}
+WALL_BUDGET = {"quick": 2400, "thorough": 5 * 3600}
 
 LAZIES = (None, True, False)
 
@@ -724,6 +724,470 @@ def _run_savexml_info_job(acc, job):
 
 
 # ---------------------------------------------------------------------------
+# clause 3: text inputs are data
+
+
+def _record_sites(acc, o):
+    from vf import c20_text as T
+
+    if o.sites:
+        d = acc.extra.setdefault("safeeval_sites_hit", {})
+        for relp, ln in T.map_to_static(o.sites):
+            d["%s:%d" % (relp, ln)] = 1
+        raw = acc.extra.setdefault("safeeval_frames_hit", {})
+        for relp, ln in o.sites:
+            raw["%s:%d" % (relp, ln)] = 1
+
+
+def run_ttx_job(acc, job):
+    from vf import c20_text as T
+
+    relfile = job["file"]
+    src = T.ttx_source(relfile)
+    sites = F.scan_xml(src)
+    with T.job_env() as env:
+        base = T.ttx_baseline(env, src)
+        acc.label("text:ttx:baseline:%s" % ("imports" if base[0] == "ok" else "import-raises"))
+        for key, ordinal in job["sites"]:
+            kind, path, attr, s, e = sites[ordinal]
+            orig = src[s:e]
+            canaries = list(env.exec_canaries())
+            if job["canaries"] != "all":
+                # quick tier: the first canary always, one more plain and one quote-breaking canary in rotation
+                canaries = [canaries[0], canaries[1 + (ordinal % 3)], canaries[4 + (ordinal % 3)]]
+            if kind == "attr" and not T._NUMERICISH.match(orig):
+                canaries += env.path_canaries(".ttx")
+            for can in canaries:
+                case = {"space": "text", "sub": "ttx", "file": relfile, "ordinal": ordinal, "canary": can[0], "key": list(key)}
+                out, sig, o = T.ttx_case(acc, env, relfile, ordinal, can, base, case, src=src, sites=sites)
+                _record_sites(acc, o)
+                acc.case((relfile, ordinal, can[0]), nontrivial=out.startswith(("reached", "violation")), labels=["text:ttx:%s" % kind, "text:ttx:canary:%s" % can[0], "text:ttx:outcome:%s" % out], sample=case if out == "reached:safeEval-site" and ordinal % 30 == 0 else None)
+
+
+def text_replay_ttx(acc, case):
+    from vf import c20_text as T
+
+    with T.job_env() as env:
+        cans = dict(env.exec_canaries() + env.path_canaries(".ttx"))
+        src = T.ttx_source(case["file"])
+        base = T.ttx_baseline(env, src)
+        T.ttx_case(acc, env, case["file"], case["ordinal"], (case["canary"], cans[case["canary"]]), base, case, src=src)
+
+
+def ttx_special_case(acc, env, case):
+    """Cases beyond single-attribute substitution: consistent glyph rename (dump with -g / -z extfile),
+    src= includes of split dumps, ttx -d / -o output handling."""
+    from vf import c20_text as T
+
+    sub = case["sub"]
+    cans = dict(env.exec_canaries() + env.path_canaries("") + [("trav-deep", "x/../../../outside/%s_deep" % F.MARK), ("fmt", "{ext.__class__}%s" % F.MARK)])
+    can = cans[case["canary"]]
+    env.clean(keep_in=False)
+    os.makedirs(env.inp, exist_ok=True)
+    if sub == "ttx-glyphname":
+        with open(os.path.join(TESTS, case["file"]), "rb") as f:
+            src = f.read()
+        doc, old = T.glyph_rename_doc(src, can)
+        if doc is None:
+            return "not-applicable", None
+        o = T.guarded(env, [env.work], T.run_ttx(env, doc, stage2=True))
+    elif sub in ("ttx-src", "ttx-cli"):
+        from fontTools.ttLib import TTFont
+
+        font = TTFont(os.path.join(TESTS, case["file"]))
+        main = os.path.join(env.inp, "split.ttx")
+        font.saveXML(main, splitTables=True)  # input preparation
+        with open(main, "rb") as f:
+            src = f.read()
+        sites = [x for x in F.scan_xml(src) if x[0] == "attr" and (x[2] == "src" or sub == "ttx-cli")]
+        if case["ordinal"] >= len(sites):
+            return "not-applicable", None
+        kind, path, attr, s, e = sites[case["ordinal"]]
+        with open(main, "wb") as f:
+            f.write(F.substitute(src, s, e, can))
+        if sub == "ttx-src":
+            def fn():
+                f2 = TTFont()
+                f2.importXML(main)
+                f2.save(os.path.join(env.out, "saved.ttf"))
+                return {"import": "ok"}
+
+            o = T.guarded(env, [env.work], fn)
+        else:
+            from fontTools import ttx
+
+            os.makedirs(env.out, exist_ok=True)
+            args = ["-q", "-d", env.out, main] if case.get("mode") == "d" else ["-q", "-o", os.path.join(env.out, "o.ttf"), main]
+            # requested location is work/out; ttx may also read next to the input
+            o = T.guarded(env, [env.out], lambda: ttx.main(args), cli=True)
+    else:
+        raise HarnessError("unknown special sub %r" % sub)
+    nf = T.report(acc, "text:%s" % sub, case, env, o)
+    _record_sites(acc, o)
+    return ("violation" if nf else "ran:%s" % (type(o.exc).__name__ if o.exc is not None else "ok")), o
+
+
+def run_ttx_special_job(acc, job):
+    from vf import c20_text as T
+
+    with T.job_env() as env:
+        for case in job["cases"]:
+            out, o = ttx_special_case(acc, env, case)
+            if out == "not-applicable":
+                acc.exclude("ttx-special:not-applicable")
+                continue
+            acc.case(case, nontrivial=out.startswith(("violation", "ran:")) and out != "ran:ok" or bool(o and o.sites), labels=["text:%s" % case["sub"], "text:%s:outcome:%s" % (case["sub"], out), "text:special:canary:%s" % case["canary"]])
+
+
+def fea_case(acc, env, case):
+    from vf import c20_text as T
+
+    with open(os.path.join(TESTS, case["file"]), encoding="utf-8", errors="replace") as f:
+        text = f.read()
+    cans = dict(env.exec_canaries() + env.path_canaries(".fea") + [("trav-deep", "x/../../../outside/%s_deep.fea" % F.MARK)])
+    env.clean()
+    if case["ordinal"] is None:
+        mutated = text
+    else:
+        sites = T.fea_sites(text)
+        if case["ordinal"] >= len(sites):
+            return "not-applicable", None
+        kind, s, e = sites[case["ordinal"]]
+        v = cans[case["canary"]]
+        if kind == "string":
+            v = v.replace('"', "'")
+        mutated = text[:s] + v + text[e:]
+    if case.get("prepend_include"):
+        mutated = "include(%s);\n" % cans[case["canary"]] + text
+    # the include directory of the corpus file is not copied: resolution failures are ordinary errors
+    o = T.guarded(env, [env.work], T.run_fea(env, mutated, build=case.get("build", True)))
+    nf = T.report(acc, "text:fea", case, env, o)
+    _record_sites(acc, o)
+    sig = (T.exc_sig(o.exc), tuple(sorted((o.result or {}).items())))
+    return ("violation" if nf else "ran"), sig
+
+
+def run_fea_job(acc, job):
+    from vf import c20_text as T
+
+    with T.job_env() as env:
+        for relfile in job["files"]:
+            with open(os.path.join(TESTS, relfile), encoding="utf-8", errors="replace") as f:
+                text = f.read()
+            base_case = {"space": "text", "sub": "fea", "file": relfile, "ordinal": None, "canary": "open-w"}
+            _, base = fea_case(acc, env, base_case)
+            sites = T.fea_sites(text)
+            seen_kinds = set()
+            plan = []
+            for cn in ("trav-rel", "trav-abs", "trav-deep", "open-w"):
+                plan.append(dict(base_case, canary=cn, prepend_include=True))
+            for i, (kind, s, e) in enumerate(sites):
+                if kind in seen_kinds and job["dedupe"] and kind != "string":
+                    continue
+                seen_kinds.add(kind)
+                names = ["os.system", "open-w", "dunder", "ifexp"] if job["canaries"] == "all" else ["os.system", ["open-w", "dunder", "ifexp"][i % 3]]
+                if kind == "string":
+                    names += ["quote3s"]
+                if kind in ("include-arg", "string") or kind.startswith("name-after"):
+                    names += ["trav-rel", "trav-abs"]
+                for cn in names:
+                    plan.append(dict(base_case, ordinal=i, canary=cn))
+            for case in plan:
+                out, sig = fea_case(acc, env, case)
+                if out == "not-applicable":
+                    continue
+                kind = "prepended-include" if case.get("prepend_include") else sites[case["ordinal"]][0].split("-after-")[0]
+                acc.case(case, nontrivial=(sig != base or out == "violation"), labels=["text:fea:%s" % kind, "text:fea:outcome:%s" % (out if sig != base or out == "violation" else "unreached")])
+
+
+def designspace_case(acc, env, case):
+    from vf import c20_text as T
+
+    cans = dict(env.exec_canaries() + env.path_canaries(".ttf") + [("trav-deep", "x/../../../outside/%s_deep.ttf" % F.MARK), ("trav-noext", "../../outside/%s_noext" % F.MARK), ("fmt", "{ext.__class__.__init__.__globals__}%s" % F.MARK), ("plain", "plain_%s.ttf" % F.MARK)])
+    v = cans[case["canary"]]
+    env.clean()
+    sub = case["sub"]
+    if sub == "ds-parse":
+        with open(os.path.join(TESTS, case["file"]), "rb") as f:
+            src = f.read()
+        sites = [x for x in F.scan_xml(src) if not (x[0] == "text" and b"<" in src[x[3] : x[4]])]
+        if case["ordinal"] >= len(sites):
+            return "not-applicable"
+        _, path, attr, s, e = sites[case["ordinal"]]
+        p = os.path.join(env.inp, "case.designspace")
+        with open(p, "wb") as f:
+            f.write(F.substitute(src, s, e, v))
+
+        def fn():
+            from fontTools.designspaceLib import DesignSpaceDocument
+
+            doc = DesignSpaceDocument.fromfile(p)
+            doc.write(os.path.join(env.out, "rewritten.designspace"))
+            for d in doc.sources + doc.instances:
+                str(d.path)
+            return {"parse": "ok"}
+
+        o = T.guarded(env, [env.work], fn)
+        nf = T.report(acc, "text:designspace", case, env, o)
+        return "violation" if nf else ("ran:%s" % (type(o.exc).__name__ if o.exc is not None else "ok"))
+    if sub == "varlib-main":
+        T.prepare_masters(env)
+        field = case["field"]
+        if field == "filename":
+            text = T.DS_TEMPLATE % dict(name="TestFamilyVF", filename=' filename="%s"' % F.xml_escape_attr(v))
+        else:  # the name attribute is used for the output file when filename is absent
+            text = T.DS_TEMPLATE % dict(name=F.xml_escape_attr(v), filename="")
+        mode = case["mode"]
+        requested = env.out if mode == "output-dir" else env.inp
+        before = T.snapshot(env.d)
+        o = T.guarded(env, [requested], T.run_varlib_main(env, text, mode), cli=True, limit=300)
+        after = T.snapshot(env.d)
+        nf = 0
+        req = os.path.realpath(requested) + os.sep
+        stray = [os.path.relpath(pth, env.d) for pth, st in after.items() if before.get(pth) != st and not (os.path.realpath(pth) + os.sep).startswith(req) and not pth.endswith("case.designspace")]
+        wr = [ev for ev in o.events if ev[0] == "write-outside" or ev[0].startswith("fs-modify-outside")]
+        o.events = [ev for ev in o.events if ev not in wr]
+        if stray or wr:
+            # one failure per case: the command wrote outside the directory it was asked to write to
+            acc.fail("text:varlib-main", "output-outside-requested-directory", "requested %s; files written elsewhere: %r; audit: %r" % (os.path.relpath(requested, env.d), stray[:3], [(k, short(dt, 90)) for k, w, dt in wr[:3]]), case, where="fontTools/varLib/__init__.py:main")
+            nf += 1
+            env.side_effects()  # restore the bait directory; already reported
+        nf += T.report(acc, "text:varlib-main", case, env, o)
+        built = any(before.get(pth) != st and pth.startswith(req) and "masters" not in pth and not pth.endswith(".designspace") for pth, st in after.items())
+        return "violation" if nf else ("built-inside" if built else "ran:%s" % (type(o.exc).__name__ if o.exc is not None else "ok-nothing-written"))
+    raise HarnessError("unknown designspace sub %r" % sub)
+
+
+def run_designspace_job(acc, job):
+    from vf import c20_text as T
+
+    with T.job_env() as env:
+        for case in job["cases"]:
+            out = designspace_case(acc, env, case)
+            if out == "not-applicable":
+                continue
+            acc.case(case, nontrivial=(out != "ran:ok"), labels=["text:%s" % case["sub"], "text:%s:outcome:%s" % (case["sub"], out)] + (["text:varlib-main:%s:%s" % (case["field"], case["canary"])] if case["sub"] == "varlib-main" else []))
+
+
+def ufo_case(acc, env, case):
+    from vf import c20_text as T
+
+    backend = T.force_bundled_fs()
+    acc.label("text:ufo:backend:%s" % backend)
+    sub = case["sub"]
+    ufo_root = os.path.join(env.inp, "in.ufo")
+    base_dir = os.path.join(ufo_root, "glyphs") if sub.startswith("contents") else ufo_root
+    up = os.path.relpath(env.outside, base_dir)  # '../../../../outside' from inside the UFO
+    cans = dict(env.exec_canaries() + [("trav-rel", "%s/%s_rel.glif" % (up, F.MARK)), ("trav-abs", os.path.join(env.outside, "%s_abs.glif" % F.MARK)), ("trav-dir", up), ("trav-deep", "x/../%s/%s_deep.glif" % (up, F.MARK)), ("trav-existing", "%s/existing.glif" % up), ("trav-existing-abs", os.path.join(env.outside, "existing.glif"))])
+    v = cans[case["canary"]]
+    env.clean(keep_in=False)
+    os.makedirs(env.inp, exist_ok=True)
+    from fontTools.ufoLib import UFOReader, UFOWriter
+    from fontTools.ufoLib.glifLib import GlyphSet, readGlyphFromString, writeGlyphToString
+
+    if sub == "glif-attr":
+        sites = [x for x in F.scan_xml(T.GLIF_SRC.encode()) if not (x[0] == "text" and b"<" in T.GLIF_SRC.encode()[x[3] : x[4]])]
+        if case["ordinal"] >= len(sites):
+            return "not-applicable"
+        _, path, attr, s, e = sites[case["ordinal"]]
+        doc = F.substitute(T.GLIF_SRC.encode(), s, e, v).decode()
+        root = T.make_ufo(env, extra_glif=doc)
+
+        def fn():
+            gs = UFOReader(root).getGlyphSet()
+            g = T.GlyphObj()
+            from fontTools.pens.recordingPen import RecordingPointPen
+
+            pen = RecordingPointPen()
+            gs.readGlyph("a", g, pen)
+            out = UFOWriter(os.path.join(env.out, "out.ufo"))
+            ogs = out.getGlyphSet()
+            ogs.writeGlyph("a", g, pen.replay)
+            ogs.writeContents()
+            out.writeLayerContents()
+            return {"read": "ok"}
+
+        o = T.guarded(env, [env.work], fn)
+    elif sub == "glyph-name":
+        # hostile glyph name -> file name chosen by the writer
+        root = T.make_ufo(env)
+
+        def fn():
+            out = UFOWriter(os.path.join(env.out, "out.ufo"))
+            ogs = out.getGlyphSet()
+            g = T.GlyphObj()
+            g.width = 10
+            ogs.writeGlyph(v, g)
+            ogs.writeContents()
+            out.writeLayerContents()
+            names = os.listdir(os.path.join(env.out, "out.ufo", "glyphs"))
+            return {"files": sorted(names)}
+
+        o = T.guarded(env, [env.out], fn)
+    elif sub == "contents-fileName":
+        # contents.plist maps glyph 'a' to a hostile file name; re-writing glyph 'a' must stay inside glyphs/
+        root = T.make_ufo(env, contents={"a": v, "b": "b.glif"})
+
+        def fn():
+            gs = GlyphSet(os.path.join(root, "glyphs"), validateRead=case.get("validate", True), validateWrite=True)
+            g = T.GlyphObj()
+            g.width = 10
+            gs.writeGlyph("a", g)
+            gs.writeContents()
+            return {"write": "ok"}
+
+        o = T.guarded(env, [root], fn)
+    elif sub == "contents-delete":
+        root = T.make_ufo(env, contents={"a": v, "b": "b.glif"})
+
+        def fn():
+            gs = GlyphSet(os.path.join(root, "glyphs"), validateRead=case.get("validate", True))
+            gs.deleteGlyph("a")
+            gs.writeContents()
+            return {"delete": "ok"}
+
+        o = T.guarded(env, [root], fn)
+    elif sub == "layercontents-dir":
+        root = T.make_ufo(env, layercontents=[("public.default", "glyphs"), ("evil", v)])
+
+        def fn():
+            w = UFOWriter(root, validate=case.get("validate", True))
+            gs = w.getGlyphSet("evil", defaultLayer=False)
+            g = T.GlyphObj()
+            g.width = 10
+            gs.writeGlyph("z", g)
+            gs.writeContents()
+            w.writeLayerContents()
+            w.deleteGlyphSet("evil")
+            w.writeLayerContents()
+            return {"layer": "ok"}
+
+        o = T.guarded(env, [root], fn)
+    elif sub == "plist-value":
+        from fontTools.misc import plistlib
+
+        body = {
+            "string": "<string>%s</string>",
+            "key": "<dict><key>%s</key><integer>1</integer></dict>",
+            "integer": "<integer>%s</integer>",
+            "real": "<real>%s</real>",
+            "date": "<date>%s</date>",
+            "data": "<data>%s</data>",
+        }[case["field"]] % F.xml_escape_attr(v)
+        doc = T._plist(body).encode()
+
+        def fn():
+            val = plistlib.loads(doc)
+            plistlib.dumps(val)
+            return {"loads": "ok"}
+
+        o = T.guarded(env, [env.work], fn)
+    else:
+        raise HarnessError("unknown ufo sub %r" % sub)
+    nf = T.report(acc, "text:%s" % sub, case, env, o)
+    return "violation" if nf else ("ran:%s" % (type(o.exc).__name__ if o.exc is not None else "ok"))
+
+
+def run_ufo_job(acc, job):
+    from vf import c20_text as T
+
+    with T.job_env() as env:
+        for case in job["cases"]:
+            out = ufo_case(acc, env, case)
+            if out == "not-applicable":
+                continue
+            acc.case(case, nontrivial=(out != "ran:ok" or case["sub"] in ("glyph-name",)), labels=["text:%s" % case["sub"], "text:%s:outcome:%s" % (case["sub"], out)])
+
+
+def text_jobs(tier, seed, rnd):
+    from vf import c20_text as T
+
+    thorough = tier == "thorough"
+    J = []
+    per = T.index_ttx_sites(depth=(2 if thorough else 1))
+    n = 0
+    for relfile in sorted(per):
+        sites = per[relfile]
+        size = len(T.ttx_source(relfile))
+        chunk = max(1, min(40, int(400000 / max(size, 1))))
+        for i in range(0, len(sites), chunk):
+            n += 1
+            J.append(dict(kind="ttx", name="ttx-%03d-%s-%d" % (n, os.path.basename(relfile.replace(":", "/")), i), file=relfile, sites=[[list(k), o] for k, o in sites[i : i + chunk]], canaries=("all" if thorough else "rotate")))
+    # special TTX cases
+    sp = []
+    for f in ["ttx/data/TestTTF.ttx", "subset/data/google_color.ttx", "ttLib/tables/data/NotoColorEmoji.subset.index_format_3.ttx", "subset/data/sbix.ttx"]:
+        for cn in ("trav-rel", "trav-abs", "trav-deep", "open-w"):
+            sp.append(dict(space="text", sub="ttx-glyphname", file=f, canary=cn))
+    for f in ["ttx/data/TestTTF.ttf", "ttx/data/TestOTF.otf"]:
+        for o in range(16 if thorough else 5):
+            for cn in ("trav-rel", "trav-abs", "open-w", "os.system"):
+                sp.append(dict(space="text", sub="ttx-src", file=f, ordinal=o, canary=cn))
+        for o in range(4):
+            for mode in ("d", "o"):
+                for cn in ("trav-rel", "trav-abs", "open-w"):
+                    sp.append(dict(space="text", sub="ttx-cli", file=f, ordinal=o, canary=cn, mode=mode))
+    for i in range(0, len(sp), 12):
+        J.append(dict(kind="ttx-special", name="ttx-special-%d" % (i // 12), cases=sp[i : i + 12]))
+    # fea
+    import glob
+
+    feas = sorted(os.path.relpath(p, TESTS) for p in glob.glob(os.path.join(TESTS, "**", "*.fea"), recursive=True) if os.path.getsize(p) < 60000)
+    pick = feas if thorough else sorted(set(rnd.sample(feas, 40) + [f for f in feas if "/include" in f][:4] + [f for f in feas if f.endswith(("spec9f.fea", "name.fea"))]))
+    for i in range(0, len(pick), 5):
+        J.append(dict(kind="fea", name="fea-%d" % (i // 5), files=pick[i : i + 5], canaries=("all" if thorough else "rotate"), dedupe=not thorough))
+    # designspace: parse/write with canaries in every distinct (element, attribute)
+    dss = sorted(os.path.relpath(p, TESTS) for p in glob.glob(os.path.join(TESTS, "**", "*.designspace"), recursive=True))
+    seen = set()
+    cases = []
+    for f in sorted(dss, key=lambda f: (os.path.getsize(os.path.join(TESTS, f)), f)):
+        with open(os.path.join(TESTS, f), "rb") as fh:
+            src = fh.read()
+        try:
+            sites = [x for x in F.scan_xml(src) if not (x[0] == "text" and b"<" in src[x[3] : x[4]])]
+        except Exception:
+            continue
+        for i, (kind, path, attr, s, e) in enumerate(sites):
+            k = (kind, path[-1], attr)
+            if k in seen:
+                continue
+            seen.add(k)
+            names = ["os.system", "open-w", "dunder", "ifexp"] if thorough else ["os.system", ["open-w", "dunder", "ifexp"][i % 3]]
+            if attr in ("filename", "name", "path", "layer", "familyname", "stylename") or kind == "text":
+                names += ["trav-rel", "trav-abs"]
+            for cn in names:
+                cases.append(dict(space="text", sub="ds-parse", file=f, ordinal=i, canary=cn))
+    for i in range(0, len(cases), 40):
+        J.append(dict(kind="designspace", name="ds-parse-%d" % (i // 40), cases=cases[i : i + 40]))
+    vm = []
+    for field in ("filename", "name"):
+        for mode in ("output-dir", "default"):
+            for cn in ("plain", "trav-rel", "trav-abs", "trav-deep", "trav-noext", "fmt", "open-w"):
+                vm.append(dict(space="text", sub="varlib-main", field=field, mode=mode, canary=cn))
+    for i in range(0, len(vm), 7):
+        J.append(dict(kind="designspace", name="varlib-main-%d" % (i // 7), cases=vm[i : i + 7]))
+    # UFO / GLIF / plist
+    uc = []
+    nglif = len(F.scan_xml(__import__("vf.c20_text", fromlist=["GLIF_SRC"]).GLIF_SRC.encode()))
+    for o in range(nglif):
+        for cn in (["os.system", "open-w", "dunder", "ifexp"] if thorough else ["os.system", ["open-w", "dunder", "ifexp"][o % 3]]) + ["trav-rel"]:
+            uc.append(dict(space="text", sub="glif-attr", ordinal=o, canary=cn))
+    for cn in ("trav-rel", "trav-abs", "trav-deep", "trav-dir", "trav-existing", "open-w", "os.system"):
+        uc.append(dict(space="text", sub="glyph-name", canary=cn))
+        for val in (True, False):
+            uc.append(dict(space="text", sub="contents-fileName", canary=cn, validate=val))
+            uc.append(dict(space="text", sub="contents-delete", canary=cn, validate=val))
+            uc.append(dict(space="text", sub="layercontents-dir", canary=cn, validate=val))
+    uc.append(dict(space="text", sub="contents-fileName", canary="trav-existing-abs", validate=True))
+    uc.append(dict(space="text", sub="contents-delete", canary="trav-existing-abs", validate=True))
+    for field in ("string", "key", "integer", "real", "date", "data"):
+        for cn in ("os.system", "open-w", "dunder", "ifexp", "trav-abs"):
+            uc.append(dict(space="text", sub="plist-value", field=field, canary=cn))
+    for i in range(0, len(uc), 60):
+        J.append(dict(kind="ufo", name="ufo-%d" % (i // 60), cases=uc[i : i + 60]))
+    return J
+
+
+# ---------------------------------------------------------------------------
 # jobs
 
 
@@ -782,7 +1246,38 @@ def jobs(tier, seed):
         J.append(dict(kind="failsave", name="failsave-ttc-%s" % os.path.basename(b), api="TTCollection.save", file=b))
     J.append(dict(kind="failsave", name="failsave-ttc-built", api="TTCollection.save", file="ttx/data/TestOTF.otf", wrap="ttc"))
     J.append(dict(kind="savexml-info", name="savexml-info", file="ttx/data/TestTTF.ttf"))
+    J += text_jobs(tier, seed, rnd)
     return J
+
+
+MUST_OCCUR = [
+    # generator labels that must be hit in every run (vacuity guard)
+    "open:sfnt:trunc", "open:sfnt:byte", "open:ttc:trunc", "open:ttc:byte", "open:woff:trunc", "open:woff:byte",
+    "open:woff2:trunc", "open:woff2:byte", "open:garbage", "open:outcome:ttliberror", "open:outcome:opened:all-tables-equal-ref",
+    "fallback:trunc", "fallback:flip", "fallback:outcome:fellback:resaved-identically",
+    "failsave:TTFont.save:None", "failsave:TTFont.save:woff", "failsave:TTFont.save:woff2", "failsave:TTCollection.save:None",
+    "failsave:ttx-o:None", "text:ttx:attr", "text:ttx:text", "text:ttx:outcome:reached:safeEval-site",
+    "text:ttx:outcome:reached:behaviour-changed", "text:ttx-src", "text:ttx-cli", "text:ttx-glyphname", "text:fea:include",
+    "text:fea:string", "text:ds-parse", "text:varlib-main", "text:varlib-main:outcome:built-inside", "text:glif-attr",
+    "text:glyph-name", "text:contents-fileName", "text:layercontents-dir", "text:plist-value", "text:ufo:backend:bundled",
+]  # fmt: skip
+
+
+def finish(total, tier, seed):
+    from vf import c20_text as T
+
+    missing = [l for l in MUST_OCCUR if not total.labels.get(l)]
+    static = T.safeeval_call_sites()
+    hit = set(total.extra.get("safeeval_sites_hit", {}))
+    unreached = sorted("%s:%d" % s for s in static if "%s:%d" % s not in hit)
+    total.extra["safeeval_call_sites"] = {"static_total": len(static), "reached_with_canary": len(hit & set("%s:%d" % s for s in static)), "unreached": unreached}
+    total.extra.pop("safeeval_frames_hit", None)
+    total.extra["safeeval_sites_hit"] = {k: 1 for k in sorted(hit)}
+    if missing:
+        raise HarnessError("generator labels with zero hits: %s" % ", ".join(missing))
+    need = 120 if tier == "quick" else 135
+    if len(static) >= 150 and len(hit) < need:
+        raise HarnessError("only %d of %d safeEval call sites were reached by a canary (need >= %d)" % (len(hit), len(static), need))
 
 
 def run_job(job):
@@ -801,6 +1296,16 @@ def run_job(job):
         run_failsave_job(acc, job)
     elif k == "savexml-info":
         run_savexml_info_job(acc, job)
+    elif k == "ttx":
+        run_ttx_job(acc, job)
+    elif k == "ttx-special":
+        run_ttx_special_job(acc, job)
+    elif k == "fea":
+        run_fea_job(acc, job)
+    elif k == "designspace":
+        run_designspace_job(acc, job)
+    elif k == "ufo":
+        run_ufo_job(acc, job)
     else:
         raise HarnessError("unknown job kind %r" % k)
     return acc
@@ -823,6 +1328,22 @@ def replay(case):
         fallback_case(acc, case["file"], bytes(case["tag"]), tuple(case["fault"]), case, do_save_when_decoded=True)
     elif sp == "failsave":
         failsave_case(acc, case)
+    elif sp == "text":
+        from vf import c20_text as T
+
+        sub = case["sub"]
+        if sub == "ttx":
+            text_replay_ttx(acc, case)
+        else:
+            with T.job_env() as env:
+                if sub in ("ttx-glyphname", "ttx-src", "ttx-cli"):
+                    ttx_special_case(acc, env, case)
+                elif sub == "fea":
+                    fea_case(acc, env, case)
+                elif sub in ("ds-parse", "varlib-main"):
+                    designspace_case(acc, env, case)
+                else:
+                    ufo_case(acc, env, case)
     else:
         raise HarnessError("unknown space %r" % sp)
     return acc.failures
